@@ -219,7 +219,7 @@ func (p *Program) verifyUnitOnce(u *Unit, splitVal *big.Int, sitePrefix string) 
 				mod[m] = true
 			}
 			for _, name := range x.oldWorld.names() {
-				if mod[name] {
+				if mod[name] || name == "svcEpoch" { // svcEpoch: ghost standing for another module's state (A-MODSEP)
 					continue
 				}
 				a, b := x.oldWorld.get(name), o.st.world.get(name)
